@@ -298,6 +298,9 @@ def handleTraffic (j : Json) : Json :=
     (if yamlNonJSON (getD req "ybody" Json.null) || yamlNonJSON (getD (getD j "resp" Json.null) "ybody" Json.null) then ["traffic.yaml-non-json-value"] else []) ++
     (if ([getStr req "query", getStr req "path"] ++ headerVals req ++ headerVals (getD j "resp" Json.null)).any nanInfText then ["traffic.nan-inf-text"] else []) ++
     (if hasKey req "body_b64" then ["req.binary-body"] else []) ++
+    -- state kept between calls (NoPanic/PatternCache): a history of the same exchange; a pattern document validation does not compile
+    (if getNat j "repeat" ≥ 2 then ["history.repeat"] else []) ++
+    (if (objects doc).any (fun o => (match o.getObjVal? "pattern" with | .ok (.str _) => true | _ => false) && getStr o "type" != "string") then ["doc.pattern-not-compiled-by-gate"] else []) ++
     (if literal then ["fixed.literal-template"] else []) ++ (if portBad then ["fixed.port-unclosed"] else []) ++
     (if paramNoSchema then ["fixed.content-param-no-schema"] else []) ++ (if emp then ["fixed.emptiness-cycle"] else []) ++
     -- input classes of the findings repaired in round 3 (F-C10-6/7/8): regression coverage, no longer exclusions
